@@ -13,6 +13,17 @@ COMMON_NOTE = ("Trusted: Coq 8.16.1 kernel (+ vm_compute), no axioms (Print Assu
                "compared with the implementation), the harness glue (case printing, canonicalisation). ")
 
 CHECKS = {
+    "C14": dict(
+        engine="corr-proc",
+        technique="Coq proof (file-system model with one-level links: case analysis + store lemmas for exactness / no-destruction; invariant over the event list of a lock-protocol transition system for mutual exclusion, release, time-out) + correspondence: exhaustive small file-system state space on real directories, and acceptance of lock traces recorded from real forked processes (kills, injected failures, time-outs)",
+        text=("Theorems over Model/Transfer.v: download/upload leave the source unchanged and make the destination's content equal to it, and do nothing "
+              "when both already match; delete removes exactly the pool file; every failing operation leaves all files as they were; link-mode download "
+              "never replaces a regular file by a link and never touches the pool file; upload of a link is refused. Lock protocol LTS (any number "
+              "of processes, any interleaving): at most one process inside; leaving (normally or by exception) or dying frees the lock; a process "
+              "that timed out never enters; entry only through a successful attempt on a free lock; at most `timeout` attempts. PARTIAL by "
+              "nature: the kernel semantics of fcntl.lockf is the LTS's definition of TryLock/Crash - exercised on real processes, not proved."),
+        note=COMMON_NOTE + "Real temporary directories and forked processes; acquisitions/releases are logged inside the locked region with CLOCK_MONOTONIC; the 1 s retry sleep is shortened in the children; md5 equality stands for content equality; links are one level deep (flat_links hypothesis). Remote (ssh) transfer variants are not modelled.",
+        design="§5 C14"),
     "C16": dict(
         engine="corr-pure",
         technique="Coq proof (invariant over insert sequences; induction over register sequences) + model/implementation correspondence by vm_compute",
@@ -141,6 +152,7 @@ def main():
         },
         "engines": [
             {"name": "coq", "path": "coq/", "serves_properties": sorted(CHECKS), "kind_free_text": "Coq 8.16.1 theories: Model (definitions), Proofs (lemmas), Props (property theorems + Print Assumptions), Check (executable checkers used by the correspondence)"},
+            {"name": "corr-proc", "path": "harness/props/c14.py", "serves_properties": [p for p in sorted(CHECKS) if CHECKS[p]["engine"] == "corr-proc"], "kind_free_text": "real temporary directories and forked processes; observed file systems and lock traces evaluated by the Gallina model / acceptor"},
             {"name": "corr-pure", "path": "harness/", "serves_properties": [p for p in sorted(CHECKS) if CHECKS[p]["engine"] == "corr-pure"], "kind_free_text": "generated cases run through the real Python code and through the Gallina model (cases.v + vm_compute), diffed inside Coq"},
         ],
         "checks": checks,
